@@ -221,6 +221,19 @@ func driveC11(c *DriveCtx, r *Rng, k int) {
 		if q.Intn(5) == 0 {
 			a.DeliverDepth, a.ForwardDepth = 1+q.Intn(2), 1+q.Intn(2)
 		}
+		if q.Intn(4) == 0 && len(a.Docs) > 0 {
+			// a stored value is of another kind than the request expects: a bare Tombstone, an empty Collection, a Link, an id-only Object
+			i := q.Intn(len(a.Docs))
+			id := a.Docs[i].ID
+			a.Docs[i].Doc = mustJSON(Pick(q, []J{
+				{"@context": asCtx, "type": "Tombstone", "id": id},
+				{"@context": asCtx, "type": "Collection", "id": id},
+				{"@context": asCtx, "type": "Link", "id": id, "href": id},
+				{"@context": asCtx, "type": "Object", "id": id},
+				{"@context": asCtx, "type": "Follow", "id": id},
+				{"@context": asCtx, "type": "Person", "id": id},
+			}))
+		}
 	}
 	if r.Intn(5) == 0 {
 		// a body whose object carries a member of every literal kind of the vocabularies, with one hostile lexical form
@@ -261,6 +274,12 @@ func driveC11(c *DriveCtx, r *Rng, k int) {
 			return
 		}
 		nb, what := mutateSeeded(rq.Body, r.U64())
+		if r.Intn(6) == 0 {
+			if bm, err := parseJ(rq.Body); err == nil {
+				bm["id"] = Pick(r, []interface{}{7, "", nil, J{}, []interface{}{}, "/relative", true})
+				nb, what = mustJSON(bm), "id:hostile"
+			}
+		}
 		var js interface{}
 		if json.Unmarshal(nb, &js) == nil {
 			rq.Body = nb
@@ -275,7 +294,17 @@ func driveC11(c *DriveCtx, r *Rng, k int) {
 			}
 		}
 		sp.Gen += " body:" + what
-		c.Exec(sp)
+		res := c.Exec(sp)
+		// the same hostile body while one seam call fails (two things going wrong at once)
+		if r.Intn(3) == 0 && len(res.Sim.Sites) > 0 {
+			for i := 0; i < 4 && !c.Expired(); i++ {
+				site := Pick(r, res.Sim.Sites)
+				sp2 := sp.Clone()
+				sp2.Faults = append(sp2.Faults, FaultSpec{Site: site, Kind: faultKindFor(site)})
+				sp2.Gen += " +fault " + site
+				c.Exec(sp2)
+			}
+		}
 	case 2: // a dereferenced document
 		clean := mkBase()
 		knobs(clean)
